@@ -16,24 +16,48 @@ from harness.core import Result
 LEVEL = "exploration"
 RULES = {
     "request": "Hypothesis + full product of the small dimensions: (scheme in http/https/ws/wss) x server (named/IPv4/IPv6, default or "
-    "other port) x Host header (absent, name, name:port, [v6], [v6]:port) x root path x Unicode path (rarely with ?, #, %) x query, "
-    "as WSGI environ and as ASGI scope, compared with a reference assembler; non-trivial = non-default port, IPv6 or a path with "
+    "other port or port None) x Host header (absent, name, name:port, [v6], [v6]:port) x root path x Unicode path (rarely with ?, #, %, TAB, LF, CR and other control characters) x query, "
+    "as WSGI environ and as ASGI scope (1 in 6 each: other headers around Host, optional keys left out, path bytes, path repeating the root path), "
+    "compared with a reference assembler and with an independent re-split of str(url); non-trivial = non-default port, IPv6 or a path with "
     "non-ASCII/reserved characters",
     "replace": "Hypothesis: URLs with a host assembled from components (userinfo, named/IPv4/IPv6 host, port, path, query, fragment) x "
     "every subset of components to replace x new values (None for user/password/port), re-parsed with an independent splitter; "
     "non-trivial = userinfo or IPv6 or port present, or >= 2 components replaced",
     "query": "Hypothesis: include/replace/remove query-parameter helpers against a list-of-pairs model; non-trivial = a repeated key",
     "repr": "Hypothesis: repr(url) never shows the password, for passwords that also occur in other components",
+    "request_opt": "enumeration: (4 schemes x server None/(name,None)/(v6,None)/default/other port x Host absent/name/[v6]:port) x one variation "
+    "at a time: optional ASGI keys (scheme, root_path, server) / WSGI keys (QUERY_STRING, SCRIPT_NAME, PATH_INFO) left out where their value "
+    "is the default, look-alike and proxy headers (X-Forwarded-Host/-Proto/-Port, Forwarded, X-Host) before and after Host, empty PATH_INFO "
+    "at a mount point, TAB/LF/CR/VT/FF/NUL/DEL/U+0085/U+2028 in path segments and in the root path, a root path ending in '/', a path that begins with the text of the root path, path bytes that are not UTF-8; same oracle as 'request'",
+    "path_convention": "enumeration: sets of probe paths (literal %XX, %, ?, #, non-ASCII) through one configuration: one and the same reading of "
+    "url.path (raw or percent-decoded once) must give root+path for ALL probes",
+    "replace_grid": "enumeration: 14 bases (named/IPv4/IPv6, with/without port incl. 0, userinfo incl. ':'/'@' password and empty password, "
+    "'@' ':' '/' in path/query/fragment, empty path) x every single change from the value lists (incl. port 0/None, scheme '', percent escapes "
+    "in path/query) and a list of pairs/triples, plus two-step chains; same oracle as 'replace'",
+    "request_edit": "enumeration: request URLs (from environ and from scope; Host header / server only / IPv6 / non-default port) edited with "
+    "replace(): expectation = reference assembler + list model",
+    "repr_grid": "enumeration: 5 hosts (named, upper-case, IPv4:0, IPv6, IPv6:port) x 16 user/password pairs (password = user name, inside the user "
+    "name, the scheme, the host; with ':' '@'; '********'; empty; none) x 3 path/query/fragment settings; same oracle as 'repr'",
+    "query_grid": "enumeration: query helpers on URLs with userinfo, port, IPv6 host, empty path and a fragment; raw query texts with bare tokens, "
+    "two spellings of one key, upper/lower-case keys; keys that need encoding; same oracle as 'query'",
 }
 ASSUMPTIONS = [
     "url.path may equal root+path raw or after one percent-decoding (a repair that quotes the path is not an alarm)",
     "user names / passwords / hosts are drawn from characters that need no percent-encoding; the password may contain ':' and '@'",
     "a WSGI server always provides SERVER_NAME/SERVER_PORT, so 'no server address' exists only on the ASGI side",
+    "only Host, the server address, scheme, root path, path and query determine the request URL: X-Forwarded-*/Forwarded/X-Host headers must not change it",
+    "optional keys: an ASGI http scope may lack scheme (= http), root_path (= ''), server (= None); a WSGI environ may lack QUERY_STRING, SCRIPT_NAME, "
+    "PATH_INFO when they would be empty (PEP 3333)",
+    "path bytes that are not UTF-8 reach an ASGI app decoded with errors='replace' (what ASGI servers do); the WSGI URL must be the same",
+    "not generated, outside the quantified domain (no server address and no Host header): a path starting with '//' when there is no authority at all",
+    "TAB, LF, CR, VT, FF, NUL, DEL, U+0085, U+2028 inside path segments and root paths are ordinary path text (what %09, %0A ... decode to): "
+    "judged by the same rule as every other path",
+    "a query without '=' ('flag') is the pair ('flag', '') of the multi-value query (keep_blank_values, as in QueryParams)",
 ]
 
 DEFAULT = {"http": 80, "https": 443, "ws": 80, "wss": 443}
 
-_URL = re.compile(r"^(?:([A-Za-z][A-Za-z0-9+.\-]*):)?(?://([^/?#]*))?([^?#]*)(?:\?([^#]*))?(?:#(.*))?$", re.S)
+_URL = re.compile(r"^(?:([A-Za-z][A-Za-z0-9+.\-]*):)?(?://([^/?#]*))?([^?#]*)(?:\?([^#]*))?(?:#(.*))?\Z", re.S)
 
 
 def split_url(url: str):
@@ -85,65 +109,142 @@ def assemble(case):
     return authority
 
 
+ASGI_OPTIONAL = ("scheme", "root_path", "server")
+WSGI_OPTIONAL = ("QUERY_STRING", "SCRIPT_NAME", "PATH_INFO")
+
+
+def request_inputs(case):
+    """(rq, scheme, server, host, root, path, query, omitted-asgi, omitted-wsgi) of a request case.  Optional fields of a case:
+    pre/post = further headers before/after Host; omit = optional scope/environ keys to leave out (honoured only where the value is
+    the default, so any subset is a legal case); path_bytes = undecoded path bytes (then `path` is their errors='replace' decoding)."""
+    scheme, server, host, root, query = case["scheme"], case["server"], case["host"], case["root"], case["query"]
+    pb = case.get("path_bytes")
+    path = case["path"] if pb is None else bytes(pb).decode("utf-8", "replace")
+    headers = [list(h) for h in case.get("pre", ())]
+    headers += [["Host", host]] if host is not None else []
+    headers += [["Accept", "*/*"]]
+    headers += [list(h) for h in case.get("post", ())]
+    rq = gw.areq(path=path, query=query, headers=headers, server=server, scheme=scheme, root_path=root, path_bytes=pb)
+    omit = set(case.get("omit", ()))
+    legal = {"scheme": scheme == "http", "root_path": root == "", "server": server is None,
+             "QUERY_STRING": query == b"", "SCRIPT_NAME": root == "", "PATH_INFO": path == ""}
+    om_a = [k for k in ASGI_OPTIONAL if k in omit and legal[k]]
+    om_w = [k for k in WSGI_OPTIONAL if k in omit and legal[k]]
+    return rq, scheme, server, host, root, path, query, om_a, om_w
+
+
+def request_url(side, rq, om_a=(), om_w=()):
+    if side == "wsgi":
+        env = gw.make_environ(rq)
+        for k in om_w:
+            del env[k]
+        return bwsgi.Request(env).url
+    scope = gw.make_scope(rq)
+    for k in om_a:
+        del scope[k]
+    return basgi.Request(scope).url
+
+
 def oracle_request(case) -> Result:
     r = Result()
-    scheme, server, host, root, path, query = case["scheme"], case["server"], case["host"], case["root"], case["path"], case["query"]
-    headers = [["Host", host]] if host is not None else []
-    headers += [["Accept", "*/*"]]
-    rq = gw.areq(path=path, query=query, headers=headers, server=server, scheme=scheme, root_path=root)
+    rq, scheme, server, host, root, path, query, om_a, om_w = request_inputs(case)
     authority = assemble(case)
     full_path = root + path
+    qtext = query.decode("latin-1")
     urls = {}
     ctx = f"{case!r}"
     sides = ["asgi"] + (["wsgi"] if server is not None and server[1] is not None else [])
     for side in sides:
         try:
-            if side == "wsgi":
-                url = bwsgi.Request(gw.make_environ(rq)).url
-            else:
-                url = basgi.Request(gw.make_scope(rq)).url
+            url = request_url(side, rq, om_a, om_w)
             urls[side] = str(url)
-            if authority is None:
-                if url.path != full_path and unquote(url.path) != full_path:
-                    r.fail(f"C18:{side}:path", f"{ctx}: url.path {url.path!r}, expected {full_path!r}")
-                continue
-            exp = split_url(f"{scheme}://{authority}/")
-            exp_host = exp["host"].strip("[]").lower() if exp["host"] else None
-            got = {"scheme": url.scheme, "hostname": url.hostname, "query": url.query, "path": url.path}
-            if url.scheme != scheme:
-                r.fail(f"C18:{side}:scheme", f"{ctx}: {url.scheme!r}")
-            if url.hostname != exp_host:
-                r.fail(f"C18:{side}:hostname", f"{ctx}: str(url) = {str(url)!r}, hostname {url.hostname!r}, expected {exp_host!r}")
+            sp = split_url(str(url))  # independent reading of the text
+            if url.query != qtext or sp["query"] != qtext:
+                r.fail(f"C18:{side}:query", f"{ctx}: str(url) = {str(url)!r}, query {url.query!r}, expected {query!r}")
+            if url.path != full_path and unquote(url.path) != full_path:
+                r.fail(f"C18:{side}:path", f"{ctx}: str(url) = {str(url)!r}, path {url.path!r}, expected {full_path!r}")
+            if sp["path"] != url.path:
+                r.fail(f"C18:{side}:path-text", f"{ctx}: str(url) = {str(url)!r} has path {sp['path']!r} but url.path is {url.path!r}")
+            if url.fragment or sp["fragment"]:
+                r.fail(f"C18:{side}:fragment", f"{ctx}: str(url) = {str(url)!r} has fragment {url.fragment!r}; a request has none")
+            if url.username is not None or url.password is not None or sp["username"] is not None:
+                r.fail(f"C18:{side}:userinfo", f"{ctx}: str(url) = {str(url)!r} has user info; a request has none")
             try:
                 port = url.port
             except ValueError as exc:
                 r.fail(f"C18:{side}:port-raises", f"{ctx}: str(url) = {str(url)!r}: url.port raised {exc!r}")
                 port = "<raises>"
-            if port != "<raises>" and port != exp["port"]:
+            if authority is None:
+                # neither Host header nor server address: the URL is path [? query], nothing else
+                if url.hostname is not None or sp["authority"] is not None or port not in (None, "<raises>"):
+                    r.fail(f"C18:{side}:authority-invented", f"{ctx}: str(url) = {str(url)!r} has host {url.hostname!r} port {port!r}; "
+                           "the request has neither Host header nor server address")
+                continue
+            exp = split_url(f"{scheme}://{authority}/")
+            exp_host = exp["host"].strip("[]").lower() if exp["host"] else None
+            if url.scheme != scheme or sp["scheme"] != scheme:
+                r.fail(f"C18:{side}:scheme", f"{ctx}: str(url) = {str(url)!r}, scheme {url.scheme!r}")
+            got_host = sp["host"].strip("[]").lower() if sp["host"] else None
+            if url.hostname != exp_host or got_host != exp_host:
+                r.fail(f"C18:{side}:hostname", f"{ctx}: str(url) = {str(url)!r}, hostname {url.hostname!r}, expected {exp_host!r}")
+            if port != "<raises>" and (port != exp["port"] or sp["port"] != exp["port"]):
                 r.fail(f"C18:{side}:port", f"{ctx}: str(url) = {str(url)!r}, port {port!r}, expected {exp['port']!r}")
-            if url.query != query.decode("latin-1"):
-                r.fail(f"C18:{side}:query", f"{ctx}: str(url) = {str(url)!r}, query {url.query!r}, expected {query!r}")
-            if url.path != full_path and unquote(url.path) != full_path:
-                r.fail(f"C18:{side}:path", f"{ctx}: str(url) = {str(url)!r}, path {url.path!r}, expected {full_path!r}")
-            if url.fragment:
-                r.fail(f"C18:{side}:fragment", f"{ctx}: str(url) = {str(url)!r} has fragment {url.fragment!r}; a request has none")
-            _ = got
         except UnicodeError as exc:
             r.fail(f"C18:{side}:raises:{type(exc).__name__}", f"{ctx}: {exc!r}")
     if len(urls) == 2 and urls["wsgi"] != urls["asgi"]:
         r.fail("C18:interfaces-disagree", f"{ctx}: wsgi {urls['wsgi']!r} vs asgi {urls['asgi']!r}")
     v6 = (server is not None and ":" in server[0]) or (host is not None and "[" in host)
     nondefault = server is not None and server[1] not in (DEFAULT[scheme], None)
-    odd_path = any(ord(c) > 127 or c in "?#% " for c in full_path)
+    odd_path = any(ord(c) > 127 or c in "?#% " or ord(c) < 32 for c in full_path)
     r.nontrivial = v6 or nondefault or odd_path
     r.label(f"scheme={scheme}", "host-header" if host is not None else ("no-server" if server is None else "server-only"))
+    if any(c in full_path for c in "\t\n\r"):
+        r.label("path-tab-or-line-break")
+    elif any(c in full_path for c in CONTROLS):
+        r.label("path-other-control")
     if v6:
         r.label("ipv6")
     if nondefault:
         r.label("non-default-port")
     if odd_path:
         r.label("odd-path")
+    if server is not None and server[1] is None:
+        r.label("server-port-none")
+    if om_a or om_w:
+        r.label(*(f"omitted-{k}" for k in om_a + om_w))
+    if case.get("pre") or case.get("post"):
+        r.label("other-headers-before-host" if case.get("pre") else "other-headers-after-host")
+    if case.get("path_bytes") is not None:
+        r.label("path-bytes-not-utf8" if "\ufffd" in path else "path-bytes")
+    if path == "":
+        r.label("empty-path-info")
     r.note = urls
+    return r
+
+
+def oracle_convention(case) -> Result:
+    """One reading of url.path for all requests: the URLs of several probe paths, built through one configuration, must all give
+    root+path raw, or all give it after one percent-decoding (a mixture means some path is not recoverable from its URL)."""
+    r = Result()
+    raw_ok = {"asgi": True, "wsgi": True}
+    dec_ok = {"asgi": True, "wsgi": True}
+    seen = {}
+    for path in case["paths"]:
+        one = dict(case, path=path)
+        del one["paths"]
+        rq, scheme, server, host, root, path, query, om_a, om_w = request_inputs(one)
+        full = root + path
+        for side in ("asgi", "wsgi"):
+            url = request_url(side, rq)
+            seen[f"{side} {path}"] = str(url)
+            raw_ok[side] = raw_ok[side] and url.path == full
+            dec_ok[side] = dec_ok[side] and unquote(url.path) == full
+    for side in ("asgi", "wsgi"):
+        if not raw_ok[side] and not dec_ok[side]:
+            r.fail(f"C18:{side}:path-convention", f"{case!r}: neither url.path nor unquote(url.path) equals root+path for all probes: {seen!r}")
+    r.nontrivial = True
+    r.label(f"probes={len(case['paths'])}")
+    r.note = seen
     return r
 
 
@@ -167,43 +268,61 @@ def build(c):
     return url
 
 
-def oracle_replace(case) -> Result:
-    r = Result()
-    base, changes = case["base"], case["changes"]
-    text = build(base)
-    url = URL(text)
-    kwargs = {}
-    for k, v in changes.items():
-        kwargs["hostname" if k == "host" else k] = v
-    ctx = f"URL({text!r}).replace(**{kwargs!r})"
-    new = url.replace(**kwargs)
-    got = split_url(str(new))
+def model_replace(base, changes):
+    """List model of replace(): named components take the new values, a password needs a user, no user = no user info."""
     exp = dict(base)
     for k in ("scheme", "path", "query", "fragment", "host", "port"):
         if k in changes:
             exp[k] = changes[k]
-    user = changes.get("username", base["username"]) if "username" in changes else base["username"]
+    user = changes["username"] if "username" in changes else base["username"]
     pw = changes["password"] if "password" in changes else base["password"]
     if user is None:
         pw = None
     exp["username"], exp["password"] = user, pw
-    for k in ("scheme", "username", "password", "host", "port", "path", "query", "fragment"):
-        g, e = got[k], exp[k]
-        if k in ("scheme",):
-            g, e = (g or "").lower(), (e or "").lower()
-        if g != e:
-            kind = "named" if (k in changes or (k in ("username", "password") and ("username" in changes or "password" in changes))) else "untouched"
-            r.fail(f"C18:replace:{kind}:{k}", f"{ctx} = {str(new)!r}: component {k} is {g!r}, expected {e!r}")
-    # accessors agree with the independent splitter
-    if new.username != exp["username"] or new.password != exp["password"]:
-        r.fail("C18:replace:accessors:userinfo", f"{ctx} = {str(new)!r}: username/password {new.username!r}/{new.password!r}")
-    try:
-        if new.port != exp["port"]:
-            r.fail("C18:replace:accessors:port", f"{ctx} = {str(new)!r}: port {new.port!r}, expected {exp['port']!r}")
-    except ValueError as exc:
-        r.fail("C18:replace:accessors:port-raises", f"{ctx} = {str(new)!r}: {exc!r}")
-    if new.hostname != exp["host"].strip("[]").lower():
-        r.fail("C18:replace:accessors:hostname", f"{ctx} = {str(new)!r}: hostname {new.hostname!r}")
+    return exp
+
+
+def judge_replace(r, url, base, steps, ctx0):
+    """Apply the replace() calls of `steps` one after the other to `url` (whose components are `base`) and judge every result."""
+    for changes in steps:
+        kwargs = {("hostname" if k == "host" else k): v for k, v in changes.items()}
+        ctx = f"{ctx0}.replace(**{kwargs!r})"
+        new = url.replace(**kwargs)
+        got = split_url(str(new))
+        exp = model_replace(base, changes)
+        touched_ui = "username" in changes or "password" in changes
+        for k in ("scheme", "username", "password", "host", "port", "path", "query", "fragment"):
+            g, e = got[k], exp[k]
+            if k in ("scheme",):
+                g, e = (g or "").lower(), (e or "").lower()
+            if g != e:
+                kind = "named" if (k in changes or (k in ("username", "password") and touched_ui)) else "untouched"
+                r.fail(f"C18:replace:{kind}:{k}", f"{ctx} = {str(new)!r}: component {k} is {g!r}, expected {e!r}")
+        # accessors agree with the independent splitter
+        if new.username != exp["username"] or new.password != exp["password"]:
+            r.fail("C18:replace:accessors:userinfo", f"{ctx} = {str(new)!r}: username/password {new.username!r}/{new.password!r}")
+        try:
+            if new.port != exp["port"]:
+                r.fail("C18:replace:accessors:port", f"{ctx} = {str(new)!r}: port {new.port!r}, expected {exp['port']!r}")
+        except ValueError as exc:
+            r.fail("C18:replace:accessors:port-raises", f"{ctx} = {str(new)!r}: {exc!r}")
+        if new.hostname != exp["host"].strip("[]").lower():
+            r.fail("C18:replace:accessors:hostname", f"{ctx} = {str(new)!r}: hostname {new.hostname!r}")
+        if (new.scheme, new.path, new.query, new.fragment) != (exp["scheme"].lower(), exp["path"], exp["query"], exp["fragment"]):
+            r.fail("C18:replace:accessors:other", f"{ctx} = {str(new)!r}: scheme/path/query/fragment accessors "
+                   f"{(new.scheme, new.path, new.query, new.fragment)!r}")
+        url, base, ctx0 = new, exp, ctx
+
+
+def oracle_replace(case) -> Result:
+    r = Result()
+    base, changes = case["base"], case["changes"]
+    steps = [changes] + [dict(c) for c in case.get("then", ())]
+    text = build(base)
+    url = URL(text)
+    judge_replace(r, url, base, steps, f"URL({text!r})")
+    if str(url) != text:
+        r.fail("C18:replace:original-changed", f"URL({text!r}) reads {str(url)!r} after replace()")
     # constructor from components
     if case.get("ctor"):
         kw = {k: v for k, v in (("scheme", base["scheme"]), ("hostname", base["host"]), ("port", base["port"]), ("username", base["username"]),
@@ -216,13 +335,40 @@ def oracle_replace(case) -> Result:
         for k in ("scheme", "username", "password", "host", "port", "path", "query", "fragment"):
             if g2[k] != e2[k]:
                 r.fail(f"C18:ctor-components:{k}", f"URL(**{kw!r}) = {str(built)!r}: component {k} is {g2[k]!r}, expected {e2[k]!r}")
-    v6 = "[" in base["host"] or "[" in str(changes.get("host", ""))
-    r.nontrivial = base["username"] is not None or v6 or base["port"] is not None or len(changes) >= 2
+    allch = {k for c in steps for k in c}
+    v6 = "[" in base["host"] or any("[" in str(c.get("host", "")) for c in steps)
+    r.nontrivial = base["username"] is not None or v6 or base["port"] is not None or len(allch) >= 2
     r.label(f"changes={len(changes)}", *(f"chg-{k}" for k in changes))
+    if len(steps) > 1:
+        r.label(f"chain={len(steps)}")
     if v6:
         r.label("ipv6")
     if base["username"] is not None:
         r.label("userinfo")
+    if any(c.get("port", None) == 0 for c in steps) or base["port"] == 0:
+        r.label("port-0")
+    if any(c.get("scheme") == "" for c in steps):
+        r.label("scheme-removed")
+    return r
+
+
+def oracle_request_edit(case) -> Result:
+    """replace() on the URL of a request (from the environ and from the scope): the URL a redirect/upgrade is computed from."""
+    r = Result()
+    req = case["request"]
+    rq, scheme, server, host, root, path, query, om_a, om_w = request_inputs(req)
+    authority = assemble(req)
+    if authority is None:
+        raise core.HarnessError("request_edit needs a request with an authority")
+    exp = split_url(f"{scheme}://{authority}/")
+    base = {"scheme": scheme, "username": None, "password": None, "host": exp["host"], "port": exp["port"],
+            "path": root + path, "query": query.decode("latin-1"), "fragment": ""}
+    steps = [dict(c) for c in case["steps"]]
+    for side in ["asgi"] + (["wsgi"] if server is not None and server[1] is not None else []):
+        url = request_url(side, rq)
+        judge_replace(r, url, base, steps, f"{side} request {req!r}: url {str(url)!r}")
+    r.nontrivial = True
+    r.label("host-header" if host is not None else "server-only", *(f"chg-{k}" for c in steps for k in c))
     return r
 
 
@@ -239,12 +385,23 @@ def m_assign(model, k, v):
     model.append((k, v))
 
 
+QUERY_PREFIX = "https://example.org/p/"
+
+
 def oracle_query(case) -> Result:
+    """Optional fields of a case: prefix = everything before the query (default https://example.org/p/), fragment, raw = query text
+    used instead of urlencode(pairs) (its pairs are read with the standard library's parse_qsl, blank values kept)."""
     r = Result()
     from urllib.parse import urlencode
 
-    pairs = [tuple(p) for p in case["pairs"]]
-    base = "https://example.org/p/" + ("?" + urlencode(pairs) if pairs else "")
+    prefix, fragment = case.get("prefix", QUERY_PREFIX), case.get("fragment", "")
+    if case.get("raw") is not None:
+        qtext = case["raw"]
+        pairs = parse_qsl(qtext, keep_blank_values=True)
+    else:
+        pairs = [tuple(p) for p in case["pairs"]]
+        qtext = urlencode(pairs)
+    base = prefix + ("?" + qtext if qtext else "") + ("#" + fragment if fragment else "")
     url = URL(base)
     op, args = case["op"], case["args"]
     if op == "include":
@@ -264,11 +421,26 @@ def oracle_query(case) -> Result:
     got = parse_qsl(new.query, keep_blank_values=True)
     if got != model:
         r.fail(f"C18:query-helper:{op}", f"URL({base!r}).{op}({args!r}) -> {str(new)!r}: pairs {got!r}, model {model!r}")
-    if str(new).split("?")[0] != base.split("?")[0] or new.fragment:
-        r.fail(f"C18:query-helper-other-components:{op}", f"URL({base!r}).{op}({args!r}) -> {str(new)!r}")
+    before, after = split_url(base), split_url(str(new))
+    if after["query"] != new.query:
+        r.fail(f"C18:query-helper-text:{op}", f"URL({base!r}).{op}({args!r}) -> {str(new)!r}: query accessor {new.query!r}")
+    for k in ("scheme", "username", "password", "host", "port", "path", "fragment"):
+        if before[k] != after[k]:
+            r.fail(f"C18:query-helper-other-components:{op}", f"URL({base!r}).{op}({args!r}) -> {str(new)!r}: component {k} was {before[k]!r}, is {after[k]!r}")
+            break
+    if str(url) != base:
+        r.fail("C18:query-helper:original-changed", f"URL({base!r}) reads {str(url)!r} after {op}")
     keys = [k for k, _ in pairs]
     r.nontrivial = len(set(keys)) < len(keys)
     r.label(f"op={op}")
+    if fragment:
+        r.label("fragment")
+    if prefix != QUERY_PREFIX:
+        r.label("other-prefix")
+    if case.get("raw") is not None:
+        r.label("raw-query")
+    if any(re.search(r"[^a-z0-9_]", k) for k, _ in args):
+        r.label("key-needs-encoding-or-upper-case")
     return r
 
 
@@ -302,7 +474,9 @@ def oracle_repr(case) -> Result:
     return r
 
 
-SUBS = {"request": oracle_request, "request_grid": oracle_request, "replace": oracle_replace, "query": oracle_query, "repr": oracle_repr}
+SUBS = {"request": oracle_request, "request_grid": oracle_request, "request_opt": oracle_request, "path_convention": oracle_convention,
+        "replace": oracle_replace, "replace_grid": oracle_replace, "request_edit": oracle_request_edit,
+        "query": oracle_query, "query_grid": oracle_query, "repr": oracle_repr, "repr_grid": oracle_repr}
 
 # ------------------------------------------------------------------------------------------
 # generators
@@ -316,12 +490,26 @@ _seg = st.one_of(
     st.text(alphabet="abc123-._~", min_size=1, max_size=5),
 )
 _odd = st.sampled_from(["a?b", "a#b", "100%", "%41", "%2F", "??", "#"])
+# what %09, %0A, %0D ... in a request target decode to: urlsplit deletes TAB/LF/CR from a URL text and keeps the others
+CONTROLS = ["\t", "\n", "\r", "\x0b", "\x0c", "\x00", "\x7f", "\x85", "\u2028"]
+_ctl = st.sampled_from(["a\tb", "a\nb", "a\rb", "\r\n", "\t", "end\n", "\nstart", "x\x0by", "x\x0cy", "a\x00b", "\x7f", "n\x85l", "l\u2028s", "a\tb?c\n#"])
+
+# headers that look like, or compete with, Host - none of them is the Host header
+OTHER_HEADERS = [["X-Forwarded-Host", "forwarded.example:81"], ["X-Forwarded-Proto", "https"], ["X-Forwarded-Proto", "http"],
+                 ["X-Forwarded-Port", "4430"], ["X-Forwarded-For", "203.0.113.9"], ["Forwarded", "for=203.0.113.9;host=fw.example;proto=https"],
+                 ["X-Host", "xhost.example"], ["X-Forwarded-Server", "srv.example"], ["Origin", "https://origin.example:444"],
+                 ["Referer", "https://referrer.example/x?y"], ["X-Original-Host", "orig.example"], ["X-Forwarded-Scheme", "wss"]]
+# path bytes as they come off the wire after percent-decoding: valid UTF-8, and not
+PATH_BYTES = [b"/caf\xc3\xa9", b"/a\xffb", b"/\xe4\xb8", b"/x/\xc3\x28/y", b"/\xfe\xff/", b"/ok/\xe4\xb8\xad\xe6\x96\x87", b"/\x80"]
 
 
 @st.composite
 def path_strategy(draw, odd_rate=8):
     n = draw(st.integers(0, 4))
-    segs = [draw(_odd) if draw(st.integers(0, odd_rate)) == 0 else draw(_seg) for _ in range(n)]
+    segs = []
+    for _ in range(n):
+        k = draw(st.integers(0, odd_rate))
+        segs.append(draw(_odd) if k == 0 else draw(_ctl) if k == 1 else draw(_seg))
     p = "/" + "/".join(segs)
     if segs and draw(st.booleans()):
         p += "/"
@@ -338,6 +526,8 @@ def request_case(draw):
     scheme = draw(_scheme)
     kind = draw(st.sampled_from(["named", "named", "v4", "v6", "none"]))
     port = draw(st.one_of(st.just(DEFAULT[scheme]), _port))
+    if kind != "none" and draw(st.integers(0, 9)) == 0:
+        port = None  # an ASGI server need not know its port
     if kind == "none":
         server = None
     elif kind == "v6":
@@ -355,8 +545,26 @@ def request_case(draw):
         host = f"[{draw(_v6)}]"
     else:
         host = f"[{draw(_v6)}]:{draw(_port)}"
-    root = draw(st.sampled_from(["", "", "/root", "/a/b", "/é"]))
-    return {"scheme": scheme, "server": server, "host": host, "root": root, "path": draw(path_strategy()), "query": draw(_query)}
+    root = draw(st.sampled_from(["", "", "", "/root", "/a/b", "/é", "/r/", "/r\tt", "/l\nf/\r", "/v\x0bt\x85"]))
+    case = {"scheme": scheme, "server": server, "host": host, "root": root, "path": draw(path_strategy()), "query": draw(_query)}
+    extra = draw(st.integers(0, 5))
+    if extra == 0:
+        hs = draw(st.lists(st.sampled_from(OTHER_HEADERS), min_size=1, max_size=3, unique_by=lambda h: h[0]))
+        cut = draw(st.integers(0, len(hs)))
+        case["pre"], case["post"] = hs[:cut], hs[cut:]
+    elif extra == 1:
+        case["omit"] = draw(st.lists(st.sampled_from(ASGI_OPTIONAL + WSGI_OPTIONAL), min_size=1, max_size=6, unique=True))
+        if root and draw(st.booleans()):
+            case["path"] = ""  # a request for the mount point itself
+    elif extra == 2 and draw(st.booleans()):
+        case["path"], case["path_bytes"] = None, draw(st.sampled_from(PATH_BYTES))
+    elif extra == 3 and root:
+        # the path repeats the root path (a mounted app that serves /app/app/..., or a root path that is a prefix of the first segment)
+        case["path"] = root + draw(st.sampled_from(["", "/", "bout", "/x"])) if draw(st.booleans()) else root + case["path"]
+    # Outside the quantified domain (no server address and no Host header): with no authority at all a path that starts with "//" (an
+    # empty first segment) reads as the authority of the URL (URL(scope=...) -> "//evil.example/a": hostname "evil.example", path "/a").
+    # path_strategy never draws an empty segment, so this class is not generated.
+    return case
 
 
 def request_grid():
@@ -370,8 +578,53 @@ def request_grid():
                             yield {"scheme": scheme, "server": server, "host": host, "root": root, "path": path, "query": query}
 
 
+def request_opt_grid():
+    """Configurations x one variation at a time: optional keys left out, other headers around Host, server port None, empty PATH_INFO,
+    undecodable path bytes."""
+    xfh, xfp, xfport, fwd, xh = OTHER_HEADERS[0], OTHER_HEADERS[1], OTHER_HEADERS[3], OTHER_HEADERS[5], OTHER_HEADERS[6]
+    variations = [
+        {},
+        {"omit": ["scheme"]}, {"omit": ["root_path"]}, {"omit": ["server"]}, {"omit": ["scheme", "root_path", "server"]},
+        {"omit": ["QUERY_STRING"], "query": b""}, {"omit": ["SCRIPT_NAME"]}, {"omit": ["PATH_INFO"], "root": "/root", "path": ""},
+        {"omit": list(ASGI_OPTIONAL + WSGI_OPTIONAL), "query": b""}, {"omit": list(ASGI_OPTIONAL + WSGI_OPTIONAL), "query": b"", "root": "/m/n", "path": ""},
+        {"root": "/root", "path": ""}, {"root": "/é", "path": "", "query": b""}, {"root": "/r/"}, {"root": "/r/", "path": "/"},
+        {"root": "/app", "path": "/app/users"}, {"root": "/a", "path": "/about"}, {"root": "/v1", "path": "/v1"}, {"root": "/é", "path": "/é/x"},
+        {"pre": [xfh]}, {"post": [xfh]}, {"pre": [xh, xfh]}, {"pre": [xfp]}, {"post": [OTHER_HEADERS[2]]}, {"pre": [xfport]}, {"post": [xfport]},
+        {"pre": [fwd]}, {"pre": [xfh, xfp, xfport], "post": [fwd, xh]}, {"post": OTHER_HEADERS[7:]},
+    ] + [{"path": f"/a{c}b/{c}/c{c}"} for c in CONTROLS] + [{"root": f"/r{c}t", "path": f"/{c}x"} for c in CONTROLS] + [
+        {"path": "/a\r\nb/\t"}, {"root": "/m\n", "path": ""}, {"root": "/m\tn", "path": "/x\n", "omit": list(ASGI_OPTIONAL + WSGI_OPTIONAL), "query": b""},
+        {"path": "/a\tb?c\n#d\r%0A"},
+    ] + [{"path": None, "path_bytes": pb} for pb in PATH_BYTES] + [{"path": None, "path_bytes": PATH_BYTES[1], "root": "/é"}]
+    for scheme in ("http", "https", "ws", "wss"):
+        for server in (None, ["example.org", None], ["::1", None], ["example.org", DEFAULT[scheme]], ["example.org", 8000], ["fe80::1", 8443]):
+            for host in (None, "example.com", "[fe::2]:8443"):
+                for var in variations:
+                    case = {"scheme": scheme, "server": server, "host": host, "root": "", "path": "/p/q", "query": b"a=1&b=2"}
+                    case.update(var)
+                    yield case
+
+
+def convention_grid():
+    probes = [["/%41", "/a?b", "/é"], ["/100%", "/a#b"], ["/%2F/x", "/a?b/%41", "/plain"], ["/%E4%B8%AD", "/中?"], ["/%", "/#", "/?"], ["/a%20b", "/a b", "/a?b"]]
+    for paths in probes:
+        for host in (None, "example.com:8080"):
+            for root in ("", "/r%41"):
+                yield {"scheme": "http", "server": ["example.org", 80], "host": host, "root": root, "paths": paths, "query": b"x=1"}
+
+
 _unres = st.text(alphabet="abcXYZ019-._~", min_size=1, max_size=6)
 _pw = st.one_of(_unres, st.sampled_from(["p:q", "p@ss", "a:b@c", "********", "x", "secret", "example", "path"]), st.just(""))
+_rport = st.sampled_from([80, 443, 8000, 8080, 1, 65535, 8443, 0])  # port 0 is a legal port number of a URL
+
+BASE_PATHS = ["", "/", "/path/to/somewhere", "/secret/x", "/a%20b", "/a@b:c"]
+BASE_QUERIES = ["", "abc=123", "a=1&b=2", "secret=1", "e=a@b.c:1&next=/x"]
+BASE_FRAGMENTS = ["", "anchor", "secret", "f@g:2/h?i"]
+NEW_VALUES = {
+    "scheme": ["http", "https", "wss", "ftp", ""],  # "" = scheme-relative (what the static-files redirect asks for)
+    "path": ["/", "/new/p", "/x.y/~z", "", "/a%20b/%41", "/n@m:1"],
+    "query": ["", "n=1", "a=1&a=2", "q=%20+%2B", "e=x@y:2&next=/a?b"],
+    "fragment": ["", "top", "x@y:3/z"],
+}
 
 
 @st.composite
@@ -385,27 +638,20 @@ def base_url(draw):
         "username": user,
         "password": pw,
         "host": host,
-        "port": draw(st.one_of(st.none(), _port)),
-        "path": draw(st.sampled_from(["", "/", "/path/to/somewhere", "/secret/x", "/a%20b"])),
-        "query": draw(st.sampled_from(["", "abc=123", "a=1&b=2", "secret=1"])),
-        "fragment": draw(st.sampled_from(["", "anchor", "secret"])),
+        "port": draw(st.one_of(st.none(), _rport)),
+        "path": draw(st.sampled_from(BASE_PATHS)),
+        "query": draw(st.sampled_from(BASE_QUERIES)),
+        "fragment": draw(st.sampled_from(BASE_FRAGMENTS)),
     }
 
 
 @st.composite
-def replace_case(draw):
-    base = draw(base_url())
-    keys = draw(st.lists(st.sampled_from(["scheme", "path", "query", "fragment", "username", "password", "host", "port"]), unique=True, min_size=1, max_size=5))
+def changes_strategy(draw, max_size=5):
+    keys = draw(st.lists(st.sampled_from(["scheme", "path", "query", "fragment", "username", "password", "host", "port"]), unique=True, min_size=1, max_size=max_size))
     changes = {}
     for k in keys:
-        if k == "scheme":
-            changes[k] = draw(st.sampled_from(["http", "https", "wss", "ftp"]))
-        elif k == "path":
-            changes[k] = draw(st.sampled_from(["/", "/new/p", "/x.y/~z", ""]))
-        elif k == "query":
-            changes[k] = draw(st.sampled_from(["", "n=1", "a=1&a=2"]))
-        elif k == "fragment":
-            changes[k] = draw(st.sampled_from(["", "top"]))
+        if k in NEW_VALUES:
+            changes[k] = draw(st.sampled_from(NEW_VALUES[k]))
         elif k == "username":
             changes[k] = draw(st.one_of(st.none(), _unres))
         elif k == "password":
@@ -413,12 +659,71 @@ def replace_case(draw):
         elif k == "host":
             changes[k] = draw(st.one_of(_hostname, _v6.map(lambda a: f"[{a}]")))
         else:
-            changes[k] = draw(st.one_of(st.none(), _port))
-    return {"base": base, "changes": changes, "ctor": draw(st.booleans())}
+            changes[k] = draw(st.one_of(st.none(), _rport))
+    return changes
 
 
-_qkey = st.sampled_from(["a", "b", "page", "q", "k_1"])
-_qval = st.one_of(st.sampled_from(["1", "2", "", "x y", "é", "a&b", "a=b", "%"]), st.integers(0, 99))
+@st.composite
+def replace_case(draw):
+    case = {"base": draw(base_url()), "changes": draw(changes_strategy()), "ctor": draw(st.booleans())}
+    if draw(st.integers(0, 3)) == 0:
+        case["then"] = draw(st.lists(changes_strategy(max_size=2), min_size=1, max_size=2))
+    return case
+
+
+def replace_grid():
+    def b(scheme="http", username=None, password=None, host="example.org", port=None, path="/p", query="a=1", fragment=""):
+        return {"scheme": scheme, "username": username, "password": password, "host": host, "port": port, "path": path, "query": query, "fragment": fragment}
+
+    bases = [
+        b(), b(port=8080), b(port=0), b(host="127.0.0.1", port=8000), b(host="EXAMPLE.com", port=443, scheme="https"),
+        b(host="[::1]"), b(host="[fe::2]", port=8443), b(host="[2001:db8::8a2e:370:7334]", port=80, username="u", password="p@ss"),
+        b(username="user"), b(username="user", password=""), b(username="u", password="a:b@c", port=81), b(username="0", password="0", host="[fe80::1]"),
+        b(path="", query="e=a@b.c:1&next=/x", fragment="f@g:2/h?i", username="u", password="pw", port=8000), b(path="/a@b:c", query="", fragment="frag", port=65535),
+    ]
+    singles = []
+    for k, vals in NEW_VALUES.items():
+        singles += [{k: v} for v in vals]
+    singles += [{"username": v} for v in (None, "new", "x-y_z")] + [{"password": v} for v in (None, "npw", "n:p@w", "********")]
+    singles += [{"host": v} for v in ("other.example", "10.0.0.5", "[fe80::1]", "UPPER.example")] + [{"port": v} for v in (None, 0, 1, 80, 9000)]
+    combos = [
+        {"scheme": "https", "port": 8443}, {"scheme": "https", "port": None, "fragment": "top"}, {"scheme": "", "path": "/p/"}, {"scheme": "", "port": 0},
+        {"host": "other.example", "path": "/a%20b/%41"}, {"host": "[fe80::1]", "port": 0}, {"host": "[::1]", "port": None}, {"host": "h.example", "username": "n"},
+        {"username": None, "password": "x"}, {"username": "n", "password": None}, {"username": "n", "password": "p:q@r", "port": 1},
+        {"password": "only"}, {"port": 0, "query": "q=%20+%2B"}, {"path": "", "query": "", "fragment": ""}, {"username": None, "host": "[fe::2]", "port": 0, "scheme": "wss"},
+    ]
+    chains = [
+        [{"scheme": "https"}, {"port": 8443}], [{"port": 0}, {"host": "other.example"}], [{"host": "[fe80::1]"}, {"port": 9000}, {"username": "n"}],
+        [{"username": None}, {"password": "x"}], [{"password": "n:p@w"}, {"port": None}], [{"scheme": ""}, {"port": 0}, {"scheme": "http"}],
+        [{"path": "/a%20b/%41"}, {"username": "n"}], [{"port": 0}, {"port": None}, {"port": 80}],
+    ]
+    for i, base in enumerate(bases):
+        for ch in singles + combos:
+            yield {"base": base, "changes": ch, "ctor": i % 2 == 0 and "scheme" in ch}
+        for chain in chains:
+            yield {"base": base, "changes": chain[0], "then": chain[1:], "ctor": False}
+
+
+def request_edit_grid():
+    edits = [
+        [{"port": 8443}], [{"scheme": "https", "port": None}], [{"scheme": "https", "port": 8443, "fragment": "top"}], [{"host": "new.example"}],
+        [{"host": "[fe80::1]"}], [{"username": "u", "password": "p@ss"}], [{"path": "/new", "query": ""}], [{"port": 0}], [{"scheme": "", "path": "/app/x/"}],
+        [{"scheme": "https"}, {"port": 8443}], [{"password": "x"}], [{"query": "next=/a?b"}, {"fragment": "f"}],
+    ]
+    for scheme, server, host in (
+        ("http", ["example.org", 80], None), ("http", ["example.org", 8000], None), ("wss", ["::1", 443], None), ("https", ["fe80::1", 8443], None),
+        ("http", ["127.0.0.1", 8000], "EXAMPLE.com"), ("https", ["example.org", 443], "example.com:8080"), ("ws", ["example.org", 80], "[fe::2]:8443"),
+        ("http", ["example.org", 80], "[::1]"), ("https", ["example.org", None], None), ("http", None, "example.com:80"),
+    ):
+        for root, path, query in (("", "/", b""), ("/app", "/x", b"a=1&b=2")):
+            for steps in edits:
+                yield {"request": {"scheme": scheme, "server": server, "host": host, "root": root, "path": path, "query": query}, "steps": steps}
+
+
+_qkey = st.sampled_from(["a", "b", "page", "q", "k_1", "A", "Page", "a b", "k&1", "é", "x=y", "a+b"])
+_qval = st.one_of(st.sampled_from(["1", "2", "", "x y", "é", "a&b", "a=b", "%", "a+b", "#f"]), st.integers(0, 99))
+QUERY_PREFIXES = [QUERY_PREFIX, "http://u:p@ss@[fe::2]:8443/p", "http://user@EXAMPLE.com:8080", "ws://10.0.0.5:0/a%20b/", "http://example.org"]
+RAW_QUERIES = ["flag", "flag&a=1", "a=1&flag&a=2", "a+b=1&a%20b=2&b=3", "A=1&a=2&A=3", "%C3%A9=1&q=%C3%A9", "a=x+y&a=x%20y&a=x%2By", "a=1&b&b=&a", "page=1&Page=2"]
 
 
 def query_case():
@@ -427,18 +732,50 @@ def query_case():
             "pairs": st.lists(st.tuples(_qkey, st.sampled_from(["1", "2", "", "x y", "é"])).map(list), max_size=6),
             "op": st.sampled_from(["include", "replace", "remove"]),
             "args": st.lists(st.tuples(_qkey, _qval).map(list), max_size=3, unique_by=lambda p: p[0]),
-        }
+        },
+        optional={
+            "prefix": st.sampled_from(QUERY_PREFIXES),
+            "fragment": st.sampled_from(["", "frag", "a=1&b=2", "x?y"]),
+            "raw": st.one_of(st.none(), st.sampled_from(RAW_QUERIES)),
+        },
     )
+
+
+def query_grid():
+    argsets = [[], [["a", "9"]], [["b", 7]], [["zz", ""]], [["a", "x y"], ["b", "é"]], [["A", "1"]], [["a b", "2"]], [["é", "3"]], [["flag", "on"]],
+               [["Page", 5], ["page", 6]], [["k&1", "a&b"]], [["x=y", "="]]]
+    for prefix in QUERY_PREFIXES:
+        for fragment in ("", "frag?x=1"):
+            for raw in ["", "a=1", "a=1&b=2&a=3"] + RAW_QUERIES:
+                for op in ("include", "replace", "remove"):
+                    for args in argsets:
+                        yield {"pairs": [], "raw": raw, "op": op, "args": args, "prefix": prefix, "fragment": fragment}
 
 
 def repr_case():
     return st.fixed_dictionaries({"base": base_url()})
 
 
+def repr_grid():
+    """Passwords that also occur earlier or later in the URL text (user name, scheme, host, path, query, fragment), on every host kind."""
+    for host, port in (("example.org", None), ("EXAMPLE.com", 8080), ("127.0.0.1", 0), ("[::1]", None), ("[fe::2]", 8443)):
+        for user, pw in (("guest", "guest"), ("0", "0"), ("user", "s"), ("user", "user:user"), ("t", "t"), ("u", "http"), ("u", "example"), ("u", "p@ss"),
+                         ("u", "a:b@c"), ("u", "********"), ("u", "secret"), ("u", "1"), ("u", "e"), ("u", ""), ("u", None), (None, None)):
+            for path, query, fragment in (("", "", ""), ("/secret/x", "secret=1&e=a@b.c:1", "secret"), ("/a@b:c", "", "f@g:2/h?i")):
+                yield {"base": {"scheme": "http", "username": user, "password": pw, "host": host, "port": port, "path": path, "query": query, "fragment": fragment}}
+
+
 def run(rec, only=None):
     quick = rec.tier == "quick"
     core.drive_cases(rec, "request_grid", request_grid(), oracle_request)
-    rec.exhaustive["request_grid"] = True
+    core.drive_cases(rec, "request_opt", request_opt_grid(), oracle_request)
+    core.drive_cases(rec, "path_convention", convention_grid(), oracle_convention)
+    core.drive_cases(rec, "replace_grid", replace_grid(), oracle_replace)
+    core.drive_cases(rec, "request_edit", request_edit_grid(), oracle_request_edit)
+    core.drive_cases(rec, "query_grid", query_grid(), oracle_query)
+    core.drive_cases(rec, "repr_grid", repr_grid(), oracle_repr)
+    for k in ("request_grid", "request_opt", "path_convention", "replace_grid", "request_edit", "query_grid", "repr_grid"):
+        rec.exhaustive[k] = True
     core.drive_hypothesis(rec, "request", request_case(), oracle_request, 1500 if quick else 40000)
     core.drive_hypothesis(rec, "replace", replace_case(), oracle_replace, 2000 if quick else 40000, seed_offset=1)
     core.drive_hypothesis(rec, "query", query_case(), oracle_query, 800 if quick else 20000, seed_offset=2)
